@@ -55,7 +55,7 @@ Definition finish_read (w : world) (o : nat) (r : read_out2) : world * out :=
             end in
   (mkW st (w_tree w) (r2_g r) (w_cb w),
    ORead (r2_err r) (match r2_obj r with Some _ => true | None => false end)
-         (checks_of (r2_events r)) (opens_of (r2_events r))).
+         (checks_of (r2_events r)) (map (real_name (w_tree w)) (opens_of (r2_events r)))).   (* what fopen is handed *)
 
 Definition wstep (w : world) (c : wcmd) : world * out :=
   match c with
@@ -68,7 +68,7 @@ Definition wstep (w : world) (c : wcmd) : world * out :=
       let '(e, kf) := new_with_options opts in
       (set_store w (sput (w_store w) o kf), ORc e)
   | WReadFile o path dl cm =>
-      finish_read w o (read_file_api (w_tree w) (w_g w) (cb_of (w_cb w)) (abs_path path) dl cm)
+      finish_read w o (read_file_api (w_tree w) (w_g w) (cb_of (w_cb w)) path dl cm)
   | WReadDirs o dist etc name sfx dl cm =>
       finish_read w o (read_dirs (w_tree w) (w_g w) (cb_of (w_cb w)) dist etc name sfx dl cm)
   | WReadConfig o project usr name sfx dl cm =>
@@ -77,8 +77,8 @@ Definition wstep (w : world) (c : wcmd) : world * out :=
       let h := read_dirs_history (w_tree w) (w_g w) (cb_of (w_cb w)) dist etc name sfx dl cm in
       (set_g w (ho_g h),
        match ho_res h with
-       | inr files => OHist ECONF_SUCCESS files (checks_of (ho_events h)) (opens_of (ho_events h))
-       | inl e => OHist e [] (checks_of (ho_events h)) (opens_of (ho_events h))
+       | inr files => OHist ECONF_SUCCESS files (checks_of (ho_events h)) (map (real_name (w_tree w)) (opens_of (ho_events h)))
+       | inl e => OHist e [] (checks_of (ho_events h)) (map (real_name (w_tree w)) (opens_of (ho_events h)))
        end)
   | WErrLoc => (w, OLoc (g_errfile (w_g w)) (g_errline (w_g w)))
   end.
